@@ -470,6 +470,9 @@ func (e *Enc) atReturn(fr *Frame, x *ssa.Return, vs []Val) {
 		}
 		cond := fr.curReach
 		switch st.Target {
+		case "*":
+			// every return statement, whatever it returns (also of functions without results); with
+			// nth K: the K-th return statement in source order, the implicit one at the end included
 		case "nil":
 			if !hasNil {
 				continue
@@ -495,6 +498,11 @@ func (e *Enc) atReturn(fr *Frame, x *ssa.Return, vs []Val) {
 		e.siteHits[st]++
 		g := e.safeBool(sctx, st.Assert, "site "+e.siteLabel(st))
 		e.addObligation("site", e.siteLabel(st), cond, g, st.Assert.Text)
+		if st.Nth >= 0 {
+			// a return site picked by ordinal: report when that return statement cannot return what the
+			// site's target says (the clause would hold vacuously - usually a wrong ordinal)
+			e.addCover("site:"+e.siteLabel(st), cond, "the chosen return statement can return the site's target")
+		}
 	}
 	if e.fc.Covers && hasNil {
 		hit := e.get(fr.curState, "ghost:sitehit", SBool)
@@ -828,7 +836,14 @@ func returnOrdinal(fn *ssa.Function, x *ssa.Return) int {
 			}
 		}
 	}
-	sort.SliceStable(rs, func(i, j int) bool { return rs[i].Pos() < rs[j].Pos() })
+	// the implicit return at the end of a function without results has no position: it is the last one
+	pos := func(r *ssa.Return) token.Pos {
+		if !r.Pos().IsValid() {
+			return token.Pos(1 << 40)
+		}
+		return r.Pos()
+	}
+	sort.SliceStable(rs, func(i, j int) bool { return pos(rs[i]) < pos(rs[j]) })
 	for i, r := range rs {
 		if r == x {
 			return i
